@@ -401,3 +401,103 @@ def plan_C19(chk, tier, seed):
 
 
 PLANS.update({"C19": plan_C19})
+
+
+PARAM_CMDS = [1, 2, 6, 10, 12, 65]
+
+
+def prefix_table(chk, cfg, depth, first_bytes, run, workers=12, timeout=3000):
+    cfgtext = ("SPECIFICATION Spec\nCONSTANTS\n    F = %s\n    Depth = %d\n    FirstBytes = {%s}\n"
+               "INVARIANTS TypeOK DecodeTotal PrefixDeterminism LiveIsRejected Emit\nCHECK_DEADLOCK FALSE\n") % (
+        fset(cfg), depth, ", ".join(str(b) for b in first_bytes))
+    os.makedirs(os.path.join(WORK, "tlc"), exist_ok=True)
+    # the table lines are emitted as "PFX ..." and collected by a small wrapper around tlc()
+    r = tlc_collect("Prefix", cfgtext, run, "PFX ", workers=workers, timeout=timeout)
+    if not r["ok"]:
+        raise ToolError("TLC %s failed (model-level):\n%s" % (run, "\n".join(r["log"][-30:])))
+    log("TLC %s: %d distinct states (prefix table of %d entries), %.1fs" % (run, r["distinct"], r["n_lines"], r["wall"]))
+    chk.add_tlc(r)
+    return r["lines_path"]
+
+
+def sweep_prefix(chk, cfg, table, depth, run):
+    binp = build(cfg)
+    out = os.path.join(WORK, "tlc", run + ".sweep.out")
+    r = sh([binp, "sweep", "prefix", table, str(depth), "16", out])
+    if r.returncode != 0:
+        raise ToolError("sweep failed: rc=%s %s" % (r.returncode, r.stdout[-2000:]))
+    recs = [json.loads(l) for l in open(out)]
+    summary = [x for x in recs if x.get("summary")][0]
+    mism = [x for x in recs if not x.get("summary")]
+    log("sweep %s[%s]: %d inputs judged against %d table entries, %d mismatches" % (
+        run, cfg, summary["checked"], summary["table"], len(mism)))
+    chk.extra["swept_inputs"] = chk.extra.get("swept_inputs", 0) + summary["checked"]
+    chk.extra["swept_unspecified"] = chk.extra.get("swept_unspecified", 0) + summary["unspec"]
+    chk.replayed += summary["checked"]
+    tool = [x for x in mism if x.get("tool")]
+    if tool:
+        raise ToolError("sweep: %s" % tool[0])
+    if mism:
+        # re-run the deviating inputs as decode2 vectors and let the trace specification judge them
+        vp = os.path.join(WORK, "tlc", run + ".sweep.vec")
+        with open(vp, "w") as f:
+            for x in mism[:200]:
+                f.write(json.dumps({"op": "decode2", "tag": "sweep", "wire": x["wire"], "props": ["C01", "C04", "C05", "C11"]}) + "\n")
+        s2, recs2 = replay(cfg, vp, run + ".sweep", full=True)
+        for i, x in enumerate(recs2):
+            x["line"] = i
+        verdicts, stats = validate(cfg, recs2, run + ".sweep.adj")
+        for st in stats:
+            chk.add_tlc(st)
+        for x in recs2:
+            if chk.prop in verdicts[x["line"]]["violated"]:
+                x["cfg"] = cfg
+                chk.violation(x, "whole-space sweep: input deviates from the prefix table: %s" % json.dumps(x.get("obs"))[:200])
+    return summary
+
+
+def mutation_traces(chk, cfg, seed_runs, n, seed, run, props_by_op, shards=6):
+    # seeds: the vectors TLC generated for the other scenarios
+    seeds = os.path.join(WORK, "tlc", run + ".seeds.ndjson")
+    with open(seeds, "w") as f:
+        for p in seed_runs:
+            with open(p) as g:
+                for i, line in enumerate(g):
+                    f.write(line)
+    return drive_and_validate(chk, cfg, "mutate:" + seeds, n, seed, props_by_op, run, shards=shards)
+
+
+def plan_C04(chk, tier, seed):
+    cfgs = ["none", "all"]
+    depth = 3 if tier == "quick" else 4
+    for cfg in cfgs:
+        # (i) the prefix automaton and the complete input space up to the depth
+        t_all = prefix_table(chk, cfg, 2, range(256), "C04.prefix.first.%s" % cfg)
+        sweep_prefix(chk, cfg, t_all, 2, "C04.prefix.first.%s" % cfg)
+        t = prefix_table(chk, cfg, depth, PARAM_CMDS, "C04.prefix.%s" % cfg)
+        sweep_prefix(chk, cfg, t, depth, "C04.prefix.%s" % cfg)
+        # (ii) structure-level faults and limits (TLC-generated), judged by the C04 predicates
+        runs = []
+        for module, cases, extra in (("MC_Faults", "MC_Cases", '    SeedKinds = {"min", "full"}\n'),
+                                     ("MC_Lattice", "MC_Cases", "")):
+            run = "C04.%s.%s" % (module, cfg)
+            r = tlc(module, scenario_cfg(cfg, cases, ["TypeOK", "DecodeTotal", "Emit"], 1, extra), run, workers=10)
+            if not r["ok"]:
+                raise ToolError("TLC %s failed:\n%s" % (run, "\n".join(r["log"][-30:])))
+            chk.add_tlc(r)
+            judge_vectors(chk, cfg, r, run, ["C04"])
+            runs.append(r["vec_path"])
+        # (iii) byte-level mutation of those messages, every event validated by the trace specification
+        n = 3000 if tier == "quick" else 40000
+        mutation_traces(chk, cfg, runs, n, seed, "C04.mutate.%s" % cfg, {"decode2": ["C01", "C04", "C05"]},
+                        shards=6 if tier == "quick" else 12)
+    return ("(i) the byte-feeding automaton: TLC explores every live prefix (all 256 first bytes to 2 bytes; the six "
+            "parameter-bearing commands to %d bytes) with DecodeTotal / PrefixDeterminism / LiveIsRejected and emits the "
+            "table prefix -> outcome; the harness decodes EVERY byte string up to that length with the real decoder "
+            "(panics are data) and judges it by table lookup; (ii) every single structural fault and every limit "
+            "lattice point of C05 / C12; (iii) seeded byte-level mutations (bit flips, interesting bytes, insertions, "
+            "deletions, truncations, duplicated and spliced slices, +-1 on length heads) of those messages, each "
+            "decoded twice and validated by the trace specification (outcome, determinism, status set, model equality)" % depth)
+
+
+PLANS.update({"C04": plan_C04})
